@@ -115,38 +115,56 @@ theorem setAdapter_eq_fresh (e : Enforcer) (a : AdapterSt) (hb : e.autoBuild = t
 role definition of the model is (re-)registered -/
 theorem setRoleManager_spec (e : Enforcer) (hb : e.autoBuild = true) :
     (Casbin.buildRoleLinks (RoleMgr.new 10) e.store.g).2 = none →
-    (e.setRoleManager.1.rm = (Casbin.buildRoleLinks (RoleMgr.new 10) e.store.g).1 ∧
-     e.setRoleManager.1.store = e.store ∧
-     (∀ gf, registerG [] e.store.g = some gf → e.setRoleManager.2 = .unit ∧ ∀ x ∈ gf, x ∈ e.setRoleManager.1.gfuncs)) := by
-  intro hok
-  unfold Enforcer.setRoleManager
-  simp only [hb, if_true, Enforcer.buildRoleLinks]
+    (∀ gf, registerG [] e.store.g = some gf →
+      e.setRoleManager.1.rm = (Casbin.buildRoleLinks (RoleMgr.new 10) e.store.g).1 ∧
+      e.setRoleManager.1.store = e.store ∧
+      e.setRoleManager.2 = .unit ∧ ∀ x ∈ gf, x ∈ e.setRoleManager.1.gfuncs) := by
+  intro hok gf hgf
+  unfold Enforcer.setRoleManager Enforcer.setRoleManagerWith
+  simp only []
+  rw [registerG_acc e.store.g e.gfuncs, hgf]
+  simp only [Option.map_some, hb, if_true, Enforcer.buildRoleLinks]
   cases hbr : Casbin.buildRoleLinks (RoleMgr.new 10) e.store.g with
   | mk rm' r =>
     rw [hbr] at hok; simp only at hok; subst hok
-    simp only
-    rw [registerG_acc e.store.g e.gfuncs]
-    refine ⟨?_, ?_, ?_⟩
-    · cases registerG [] e.store.g <;> simp
-    · cases registerG [] e.store.g <;> simp
-    · intro gf hgf; rw [hgf]; simp only [Option.map_some]
-      exact ⟨by simp, fun x hx => List.mem_append.mpr (Or.inr hx)⟩
+    exact ⟨rfl, rfl, rfl, fun x hx => List.mem_append.mpr (Or.inr hx)⟩
 
-/-- **a handed-over manager's previous content is irrelevant** (auto-build on): whatever links the manager
-given to `set_role_manager` still holds — a fresh one, or a kept handle that went stale while detached —
-the enforcer afterwards is the same, as long as the hierarchy limit is the same -/
+/-- **a failing rebuild still leaves the role functions on the new manager** (regression for F24): when the
+stored grouping rules cannot be linked, `set_role_manager` reports the error, but the functions of every role
+definition are registered all the same — decisions and link maintenance keep using one and the same manager
+(in the model there is a single `rm` field; the crate's closures capture it at registration time) -/
+theorem setRoleManager_failing_build_registers (e : Enforcer) (hb : e.autoBuild = true) (k : ErrKind)
+    (hfail : (Casbin.buildRoleLinks (RoleMgr.new 10) e.store.g).2 = some k) (gf : List (String × Nat))
+    (hgf : registerG [] e.store.g = some gf) :
+    e.setRoleManager.2 = .err k ∧ ∀ x ∈ gf, x ∈ e.setRoleManager.1.gfuncs := by
+  unfold Enforcer.setRoleManager Enforcer.setRoleManagerWith
+  simp only []
+  rw [registerG_acc e.store.g e.gfuncs, hgf]
+  simp only [Option.map_some, hb, if_true, Enforcer.buildRoleLinks]
+  cases hbr : Casbin.buildRoleLinks (RoleMgr.new 10) e.store.g with
+  | mk rm' r =>
+    rw [hbr] at hfail; simp only at hfail; subst hfail
+    exact ⟨rfl, fun x hx => List.mem_append.mpr (Or.inr hx)⟩
+
+/-- **a handed-over manager's previous content is irrelevant** (auto-build on, role definitions well-formed):
+whatever links the manager given to `set_role_manager` still holds — a fresh one, or a kept handle that went
+stale while detached — the enforcer afterwards is the same, as long as the hierarchy limit is the same -/
 theorem setRoleManagerWith_content_irrelevant (e : Enforcer) (hb : e.autoBuild = true) (r1 r2 : RoleMgr String)
-    (hm : r1.maxLevel = r2.maxLevel) :
+    (hm : r1.maxLevel = r2.maxLevel) (hreg : (registerG e.gfuncs e.store.g).isSome = true) :
     e.setRoleManagerWith r1 = e.setRoleManagerWith r2 := by
   unfold Enforcer.setRoleManagerWith
-  simp only [hb, if_true, Enforcer.buildRoleLinks]
-  rw [buildRoleLinks_congr r1 r2 e.store.g hm]
+  simp only []
+  cases hr : registerG e.gfuncs e.store.g with
+  | none => rw [hr] at hreg; cases hreg
+  | some gf =>
+    simp only [hb, if_true, Enforcer.buildRoleLinks]
+    rw [buildRoleLinks_congr r1 r2 e.store.g hm]
 
 /-- in particular handing back a stale handle is the same as installing a fresh manager -/
-theorem setRoleManagerWith_eq_fresh (e : Enforcer) (hb : e.autoBuild = true) (r : RoleMgr String) (hm : r.maxLevel = 10) :
-    e.setRoleManagerWith r = e.setRoleManager := by
-  rw [setRoleManagerWith_content_irrelevant e hb r (RoleMgr.new 10) (by simp [hm, RoleMgr.new])]
-  rfl
+theorem setRoleManagerWith_eq_fresh (e : Enforcer) (hb : e.autoBuild = true) (r : RoleMgr String) (hm : r.maxLevel = 10)
+    (hreg : (registerG e.gfuncs e.store.g).isSome = true) :
+    e.setRoleManagerWith r = e.setRoleManager :=
+  setRoleManagerWith_content_irrelevant e hb r (RoleMgr.new 10) (by simp [hm, RoleMgr.new]) hreg
 
 /-! ### Non-vacuity and the regression witness for the repaired defect (F11) -/
 def aclStore : Store := ⟨[{ key := "p", tokens := ["p_sub"], arity := 0, policy := [] }], []⟩
